@@ -136,8 +136,6 @@ var c06InPlace = regexp.MustCompile(`\)\.(MulBy\d+|MulAssign|MulByNonResidue\w*)
 var c06Partial = map[string]string{
 	"CyclotomicSquareCompressed": "Karabina's compressed squaring: only the four compressed coordinates are defined (documented); the others are recovered by DecompressKarabina",
 	"SetString":                  "decoder with an error return: C08 domain",
-	"MustSetRandom":              "panics on error",
-	"SetRandom":                  "error return",
 	"Clone":                      "returns a fresh element, the receiver is the source",
 }
 
@@ -204,6 +202,30 @@ func checkC06(c *Ctx) {
 				RequireFactsAtInstr(c, p, "C06.special", fn, inv, "base-inverted", []Req{{"negative-exponent", `Int\.Sign\(p1\)`}})
 			}
 		}
+	}
+	c.Rule("C06.member", "GUARD: the target-group membership test IsInSubGroup of every tower returns true only on a path where the element was tested to be non-zero (all its Frobenius / product equalities hold trivially for 0)", 7)
+	for _, pk := range p.FamilyPkgs("ecc/*/internal/fptower") {
+		for _, recv := range []string{"E6", "E12", "E24"} {
+			if fn := p.Func(pk, recv, "IsInSubGroup"); fn != nil {
+				RequireFacts(c, p, "C06.member", fn, AcceptTrueBool, nil, []Req{{"non-zero", `^not E\d+\.IsZero\(pr\)$`}})
+			}
+		}
+	}
+	c.Rule("C06.subalias", "SUB-OBJECT ALIASING: an operand whose type is the type of a coordinate of the receiver (z.MulByElement(x, y *Element), z.MulBy01(c0, c1 *E2)) may point into the receiver; the operation never reads such an operand after it has written a receiver coordinate of that type (it reads first or works on a copy) — found and fixed: small-field MulByElement, sparse products MulBy01/MulBy014", 60)
+	{
+		n := 0
+		var hits []Finding
+		for _, fn := range fns {
+			if fn.Parent() != nil || fn.Object() == nil || !fn.Object().Exported() {
+				continue
+			}
+			k, h := subObjectHazards(p, eff, fn)
+			n += k
+			hits = append(hits, h...)
+		}
+		c.Instance("C06.subalias", n)
+		reportFindings(c, p, "C06.subalias", nil, hits, "")
+		c.Ob("C06.subalias", "-", "-", "component-typed-operands-analysed", "-", n >= 60, "fewer component-typed operands found than confirmed on the reference tree")
 	}
 	c.Rule("C06.zerouse", "L-ZEROUSE (belief contradiction): on the branch where P.IsZero() returned true, P is never an operand of Mul/Square/Inverse/Div: a product with a quantity known to vanish means the test looks at another coordinate than the arithmetic (this is how the g3/g5 confusion of E12.DecompressKarabina shows in the code)", 60)
 	c.Rule("C06.divisor", "GUARDED-DIVISOR: in (Batch)DecompressKarabina the coordinate whose vanishing selects the fallback formula is an operand of the divisor computed on the other branch (the test guards the quantity that is actually divided by)", 8)
